@@ -169,6 +169,19 @@ func oracleResolve(a, b obsSrc, r obsSrc, rerr error, panicked interface{}) []Vi
 		u2, n2 := relNF(r.Sub)
 		if u1 != u2 || strings.Join(n1, "/") != strings.Join(n2, "/") {
 			bad(fmt.Sprintf("local result %q does not denote base/rel", r.Sub))
+		} else {
+			// the path is the segment-wise result itself, spelled the one canonical way
+			var segs []string
+			for i := 0; i < u2; i++ {
+				segs = append(segs, "..")
+			}
+			segs = append(segs, n2...)
+			if len(segs) == 0 {
+				segs = []string{"."}
+			}
+			if want := canonLocal(segs); r.Sub != want {
+				bad(fmt.Sprintf("local result is %q where base/rel, applied segment by segment, is %q", r.Sub, want))
+			}
 		}
 		return vs
 	}
